@@ -8,9 +8,9 @@ Lemma prepare_inputs : forall limit saved g, exists extra, g_inputs (prepare lim
 Proof.
   intros limit. induction saved as [|[k v] r IH]; intros g; cbn [prepare].
   - exists []. now rewrite app_nil_r.
-  - destruct (IH (GSig (if smemb k (g_inputs g) then g_inputs g else (g_inputs g ++ [k])%list) (g_outputs g)
+  - destruct (IH (GSig (if smemb k (map fst (g_inputs g)) then g_inputs g else (g_inputs g ++ [(k, t_ty v)])%list) (g_outputs g)
                        (if t_size v >? limit then remove_key k (g_inits g) else g_inits g))) as (extra & E).
-    rewrite E. cbn [g_inputs]. destruct (smemb k (g_inputs g)); [eauto|]. rewrite <- app_assoc. eauto.
+    rewrite E. cbn [g_inputs]. destruct (smemb k (map fst (g_inputs g))); [eauto|]. rewrite <- app_assoc. eauto.
 Qed.
 Lemma prepare_outputs : forall limit saved g, g_outputs (prepare limit saved g) = g_outputs g.
 Proof. intros limit. induction saved as [|[k v] r IH]; intros g; cbn [prepare]; [reflexivity|]. now rewrite IH. Qed.
@@ -110,7 +110,7 @@ Lemma call_onnx_api_order_refuted :
   NoDup (keys (g_inits w_capi)) /\
   keys (g_inits (snd (call_onnx_api true 1000 w_capi))) = ["w_small"%string; "w_big"%string] /\
   keys (g_inits w_capi) = ["w_big"%string; "w_small"%string] /\
-  g_inputs (fst (call_onnx_api true 1000 w_capi)) = ["x"%string; "w_big"%string; "w_small"%string] /\
+  map fst (g_inputs (fst (call_onnx_api true 1000 w_capi))) = ["x"%string; "w_big"%string; "w_small"%string] /\
   keys (g_inits (fst (call_onnx_api true 1000 w_capi))) = ["w_small"%string].
 Proof. split; [repeat constructor; cbn; intuition discriminate|]. vm_compute. repeat split; reflexivity. Qed.
 
